@@ -51,6 +51,7 @@ EveryFam   == Families \cup {AllMgrs}
 OnlyAll    == {AllMgrs}
 OnlyGlobal == {FamGlobal}
 OnlyGlobalCore == {{"dyn", "ldtypes"}}
+OnlyCtx    == {{"ctx"}}        \* explicit propagation between threads, densely
 OnlyPermCtx == {FamPermCtx}
 OnlyVal    == {FamVal}
 OnlyKw     == {FamKw}
